@@ -92,39 +92,29 @@ Theorem C35_require_list_exact : forall core env modname s,
 Proof. exact require_list_exact. Qed.
 Print Assumptions C35_require_list_exact.
 
-(* The documented reading of (require m) and (require m :as A): every macro k
-   of m becomes <prefix>.k.  Full statement: *)
-Definition C35_require_prefixed_full : Prop := forall core env modname s,
+(* (require m) and (require m :as A): every macro k of m becomes <prefix>.k,
+   exported or not, underscore or not (repo commit 2d979da; before it the code
+   passed "EXPORTS" here and this statement was refuted), and nothing else changes *)
+Theorem C35_require_prefixed_full : forall core env modname s,
   find_src modname env = Some s -> s_macros s <> [] -> forall warn tgt sh p,
   (sh = RBare /\ p = modname) \/ (sh = RAs p) -> p <> [] ->
-  exists asg tgt' w,
-    shape_params modname sh = Some (p, asg)
-    /\ require_model core env warn modname asg p tgt = (tgt', w, false)
-    /\ (forall k0 m, ns_get k0 (s_macros s) = Some m -> ns_get (p ++ [ch_dot] ++ k0) tgt' = Some m).
-(* Proved only for modules all of whose macros are exported (what is missing:
-   the code passes "EXPORTS" for these shapes, so names outside
-   _hy_export_macros, or starting with an underscore, are not transferred). *)
-Theorem C35_require_prefixed_partial : forall core env modname s,
-  find_src modname env = Some s -> s_macros s <> [] -> forall warn tgt sh p,
-  (sh = RBare /\ p = modname) \/ (sh = RAs p) -> p <> [] -> all_exported s = true ->
   exists asg tgt' w,
     shape_params modname sh = Some (p, asg)
     /\ require_model core env warn modname asg p tgt = (tgt', w, false)
     /\ (forall k0 m, ns_get k0 (s_macros s) = Some m -> ns_get (p ++ [ch_dot] ++ k0) tgt' = Some m)
     /\ (forall k0, ns_get k0 (s_macros s) = None -> ns_get (p ++ [ch_dot] ++ k0) tgt' = ns_get (p ++ [ch_dot] ++ k0) tgt)
     /\ (forall k, strip_prefix (p ++ [ch_dot]) k = None -> ns_get k tgt' = ns_get k tgt).
-Proof. exact require_prefixed_documented_partial. Qed.
-Print Assumptions C35_require_prefixed_partial.
+Proof. exact require_prefixed_all. Qed.
+Print Assumptions C35_require_prefixed_full.
 
-(* ... and the full statement is false of the model: a witness module with a
-   macro _p; after (require s) the name s._p is not a macro. *)
-Theorem C35_require_prefixed_refuted :
-  exists env modname s k0 m tgt',
-    find_src modname env = Some s /\ ns_get k0 (s_macros s) = Some m
-    /\ fst (do_require [] env (init_cstate [] []) modname RBare) = (tgt', [])
-    /\ lookup [] tgt' (modname ++ [ch_dot] ++ k0) = None.
-Proof. exact require_prefixed_every_macro_refuted. Qed.
-Print Assumptions C35_require_prefixed_refuted.
+(* instance: module s with macros ma and _p and _hy_export_macros = []:
+   (require s) gives s._p and s.ma, and not ma; (require s STAR) gives nothing *)
+Example C35_require_prefixed_example :
+  let c := fst (fst (do_require [] w_env (init_cstate [] []) w_mod RBare)) in
+  lookup [] c (w_mod ++ [ch_dot] ++ w_priv) = Some 2 /\ lookup [] c (w_mod ++ [ch_dot] ++ w_ma) = Some 1
+  /\ lookup [] c w_ma = None
+  /\ lookup [] (fst (fst (do_require [] w_env (init_cstate [] []) w_mod RStar))) w_ma = None.
+Proof. exact require_prefixed_example. Qed.
 
 (* defmacro warns iff the new name is a core macro's and no enclosing pragma
    disabled the warning (the innermost scope with the pragma decides) *)
